@@ -60,7 +60,7 @@ func decide(ms []mrule, res string, live uint64, b uint64) string {
 }
 
 func TestSequential(t *testing.T) {
-	hx.Check(t, hx.N{Quick: 6000, Thorough: 40000}, func(t *rapid.T, c *hx.Case) {
+	hx.Check(t, hx.N{Quick: 36000, Thorough: 400000}, func(t *rapid.T, c *hx.Case) {
 		hx.Reset(hx.Epoch + uint64(rapid.IntRange(0, 999).Draw(t, "t0")))
 		exP5 := hx.Known("P5")
 		ms := drawRules(t, c, []string{"a", "b"}, true)
@@ -159,7 +159,7 @@ func TestSequential(t *testing.T) {
 }
 
 func TestAdmissionPathInterleavings(t *testing.T) {
-	hx.Check(t, hx.N{Quick: 3000, Thorough: 20000}, func(t *rapid.T, c *hx.Case) {
+	hx.Check(t, hx.N{Quick: 18000, Thorough: 200000}, func(t *rapid.T, c *hx.Case) {
 		hx.Reset(hx.Epoch + uint64(rapid.IntRange(0, 999).Draw(t, "t0")))
 		s := sched.New("chain.checked")
 		defer s.Close()
